@@ -75,8 +75,8 @@ func floatClose(a, b, tol float64) bool {
 
 type NormOpts struct {
 	Tol            float64
-	IgnoreScores   bool                 // alias checks: idf is per shard
-	ScoreSorted    bool                 // order may differ between hits whose scores are within Tol
+	IgnoreScores   bool                            // alias checks: idf is per shard
+	ScoreSorted    bool                            // order may differ between hits whose scores are within Tol
 	FragmentFields func(id string) map[string]bool // fields whose fragments are compared (nil = all)
 	IgnoreSortKeys bool
 }
